@@ -55,6 +55,10 @@ pub fn gen_c15(seed: u64, thorough: bool) -> Plan {
                     }
                 }
             }
+            if fault == "blackhole" {
+                // the hang rule of the simulator is keyed by destination port: give the black-holed target a port of its own
+                f.target_port = 41_000 + ix as u16;
+            }
             f.target_fault = Some(fault.to_owned());
             f.ending = Ending::None;
         }
